@@ -181,6 +181,24 @@ def run(ctx):
                 except Exception as e_:  # noqa: BLE001 - what it left behind is judged below
                     ctx.bump("cleanup raised %s" % type(e_).__name__)
         after = snapshot(d)
+        if not cli and idx % 3 == 0:
+            # a later run in the same process (an embedding program, a test of the runner itself) over the same paths:
+            # the orphans that have appeared in the meantime are removed again - nothing of the first run survives
+            gone = sorted(set(before) - set(after))
+            for rel in gone:
+                with open(os.path.join(d, rel), "wb") as f_:
+                    f_.write(b"again")
+            with contextlib.redirect_stdout(io.StringIO()):
+                try:
+                    remove_stale_bytecode(get_options(list(args), []))
+                except Exception as e_:  # noqa: BLE001
+                    ctx.bump("second cleanup raised %s" % type(e_).__name__)
+            left = [rel for rel in gone if os.path.exists(os.path.join(d, rel))]
+            ctx.bump("second run in the process")
+            if left:
+                ctx.violation("a second clean-up of the same paths in the same process leaves the orphans %r (the first one "
+                              "removed them)" % left[:6], {"tree": tree, "roots": ["/".join(r) for r in roots], "keep": keep,
+                                                           "usecompiled": usec, "left": left}, signature="C15:second-run")
         with contextlib.redirect_stdout(io.StringIO()):
             real_ignore = sorted(get_options(list(args), []).ignore_dir)
         # the ignore set of the statement: the documented defaults plus the names given, as typed
